@@ -32,6 +32,8 @@ MUTANTS = [
  ("hybrid_nonpersistent_inferred", "mosaik/scenario.py", "    default_events = None if type == 'event-based' else empty\n    event_outputs", "    default_events = None if type != 'time-based' else empty\n    event_outputs", ["C12"]),
  ("cycle_check_ignores_async", "mosaik/scenario.py", "        dest_sim.input_delays[src_sim] = delay\n\n    def connect(", "        dest_sim.input_delays.setdefault(src_sim, delay)\n\n    def connect(", ["C06", "C16"]),
  ("stop_skips_last_sim", "mosaik/scenario.py", "            for sim in self.sims.values():\n                self.loop.run_until_complete(sim.stop())", "            for sim in list(self.sims.values())[:max(1, len(self.sims) - (0 if getattr(self, 'tqdm', None) is None or self.tqdm.n >= getattr(self, 'until', 0) else 1))]:\n                self.loop.run_until_complete(sim.stop())", ["C14"]),
+ ("revert_D14_init_every_entry", "mosaik/scenario.py", "                for time in range(-int(time_shifted), 0) or [0]:", "                for time in [-int(time_shifted)]:", ["C03"]),
+ ("revert_D25_rt_start", "mosaik/scheduler.py", "    for sim in world.sims.values():\n        # A simulator's progress can be advanced by another simulator's\n        # process before its own process has started.\n        sim.rt_start = perf_counter()\n", "", ["C17"]),
  ("evenly_shuffle_once", "mosaik/util.py", "    while pos < src_size:\n        random.shuffle(dest_set)\n        for src, dest in zip(src_set[pos:], dest_set):", "    random.shuffle(dest_set)\n    while pos < src_size:\n        for src, dest in zip(src_set[pos:], dest_set + dest_set[:1]):", ["C18"]),
 ]
 
